@@ -53,22 +53,31 @@ def load_context(prog, ci):
 
 
 def load_assigned(fn, var):
-    """Attributes assigned on the reloaded object inside load: definitely / under a guard."""
-    definite, guarded = set(), set()
-
-    def visit(stmts, g):
+    """Attributes assigned on the reloaded object inside load: definitely (on every path) / only under a guard."""
+    def visit(stmts):
+        """(assigned on every path through stmts, assigned on some path)"""
+        must, may = set(), set()
         for st in stmts:
             if isinstance(st, ast.Assign):
                 for t in st.targets:
                     if isinstance(t, ast.Attribute) and isinstance(t.value, ast.Name) and t.value.id == var:
-                        (guarded if g else definite).add(t.attr)
+                        must.add(t.attr)
+                        may.add(t.attr)
             elif isinstance(st, ast.If):
-                visit(st.body, True)
-                visit(st.orelse, True)
-            elif isinstance(st, (ast.For, ast.While, ast.Try)):
-                visit(st.body, True)
-    visit(fn.body, False)
-    return definite, guarded
+                m1, a1 = visit(st.body)
+                m2, a2 = visit(st.orelse)
+                must |= (m1 & m2)
+                may |= a1 | a2
+            elif isinstance(st, (ast.For, ast.While)):
+                m1, a1 = visit(st.body)
+                may |= a1
+            elif isinstance(st, (ast.Try, ast.With)):
+                m1, a1 = visit(st.body)
+                must |= m1
+                may |= a1
+        return must, may
+    must, may = visit(fn.body)
+    return must, may - must
 
 
 def str_keys_read(fn, dname="D"):
@@ -202,9 +211,19 @@ def param_key_suffixes(prog):
         if isinstance(n, ast.Subscript) and isinstance(n.slice, ast.BinOp) and isinstance(n.slice.op, ast.Add) \
                 and isinstance(n.slice.right, ast.Constant):
             read[n.slice.right.value] = n.lineno
-    # prefix agreement: f"param_{param_id}" in both
-    pre_w = [U(s.value) for s in gi.body if isinstance(s, ast.Assign) and U(s.targets[0]) == "i"]
-    pre_r = [U(s.value) for s in ld.body if isinstance(s, ast.Assign) and U(s.targets[0]) == "i"]
+    # prefix agreement: the resolved prefix expression, f"param_{param_id}", in both (whatever the local is called)
+    rw, rr = Resolver(gi, prog, pc.module, pc), Resolver(ld, prog, pc.module, pc)
+    pre_w, pre_r = set(), set()
+    for n in ast.walk(gi):
+        if isinstance(n, ast.Dict):
+            for k in n.keys:
+                if isinstance(k, ast.JoinedStr) and len(k.values) == 2 and isinstance(k.values[0], ast.FormattedValue):
+                    pre_w.add(str(U(rw.term(k.values[0].value, rw.stmt_of(k)))))
+    for n in ast.walk(ld):
+        if isinstance(n, ast.Subscript) and isinstance(n.slice, ast.BinOp) and isinstance(n.slice.op, ast.Add) \
+                and isinstance(n.slice.right, ast.Constant):
+            pre_r.add(str(U(rr.term(n.slice.left, rr.stmt_of(n)))))
+    pre_w, pre_r = sorted(pre_w), sorted(pre_r)
     return written, wvals, read, pre_w, pre_r, pc, gi, ld
 
 
